@@ -1,9 +1,41 @@
-"""Executor.tla parts shared by C06/C07/C09/C10 - filled in below."""
+"""Executor.tla parts shared by C06 / C07: suspension and fail-stop inside map/parallel."""
+from __future__ import annotations
+
+import random
+
+from checks import oracles
+from checks.durable_common import run_campaign
+from checks.executor_common import CURATED_CONC, STRICT, conc_scenario, executor_sweep, gen_conc_program
+
+NONEC, NONEP = 99, 999
 
 
 def suspend_part(ctx):
-    pass
+    """C07 inside map/parallel: suspend only when everybody is parked, never stuck, never hanging."""
+    executor_sweep(ctx, STRICT["C07"], tag=f"exs_{ctx.pid}",
+                   scripts_sets=([[["susp"], ["step", "ok"]], [["tsusp", "ok"], ["step", "fail"]], [["susp"], ["tsusp", "susp"]]]
+                                 + ([] if ctx.quick else [[["tsusp", "step", "ok"], ["susp"], ["step", "ok"]]])),
+                   configs=[(0, 0, NONEC, NONEP), (0, 1, NONEC, NONEP), (1, 0, 0, 0), (0, 0, 1, NONEP)],
+                   budget=(5 if ctx.quick else None))
+    executor_sweep(ctx, [], tag=f"exl_{ctx.pid}", liveness=True,
+                   scripts_sets=[[["tsusp", "ok"], ["susp"]], [["step", "ok"], ["tsusp", "step", "ok"]]],
+                   configs=[(0, 0, NONEC, NONEP), (1, 1, NONEC, NONEP)], budget=(1 if ctx.quick else None))
+    rng = random.Random(ctx.seed + 77)
+    names = ["m04_waits_retries", "m05_callbacks", "m12_park_then_decide", "m13_park_then_finish", "m14_park_then_fail",
+             "m15_timed_and_indef", "m08_nested", "m02_first_successful"]
+    progs = [CURATED_CONC[n] for n in names] + [gen_conc_program(rng) for _ in range(6 if ctx.quick else 80)]
+    items = [(p, conc_scenario(rng, p)) for p in progs for _ in range(5 if ctx.quick else 14)]
+    execs = run_campaign(ctx, items)
+    ctx.notes["conc_executions"] = len(execs)
+    for e in execs:
+        oracles.c07(ctx, e)
 
 
 def failstop_part(ctx):
-    pass
+    """C06 inside map/parallel: a checkpoint failure surfacing in a branch or in the timer thread terminates the invocation."""
+    from checks.durable_check import fault_enumeration
+    executor_sweep(ctx, STRICT["C06"], tag=f"exf_{ctx.pid}",
+                   scripts_sets=[[["step", "bte"], ["step", "ok"]], [["bte"], ["susp"]], [["tsusp", "bte"], ["step", "ok"]]],
+                   configs=[(0, 0, NONEC, NONEP), (0, 1, NONEC, NONEP), (1, 0, 0, 0)], budget=(6 if ctx.quick else None))
+    progs = [CURATED_CONC[n] for n in ["m01_all_ok", "m04_waits_retries", "m02_first_successful", "m06_maxc1", "m15_timed_and_indef"]]
+    fault_enumeration(ctx, progs, [oracles.c06, oracles.c18], faults=["invalid_param", "throttle429"], seed_salt=707)
